@@ -42,6 +42,14 @@ class C19(Check):
                 # the bounds in another unit notation (explicit units on both ends or on one end only; the default unit stays s)
                 c['unit_style'] = [rng.choice(['both', 'begin', 'end']), rng.randrange(1 << 30)]
             cases.append(c)
+        # unbounded once / historically nested in each other (the dense visitors share a running value between the two)
+        X1, Y0 = ('pred', 'geq', ('var', 0), ('const', 1)), ('pred', 'geq', ('var', 1), ('const', 0))
+        for f in [('hist', ('implies', ('once', X1), Y0)), ('hist', ('hist', ('pred', 'geq', ('var', 1), ('a1', 'neg', ('const', 1))))), ('once', ('hist', X1)),
+                  ('hist', ('or', X1, ('once', Y0))), ('once', ('and', Y0, ('hist', X1))), ('hist', ('once', ('hist', Y0))), ('once', ('once', X1))]:
+            for _ in range(2):
+                P = rng.choice([2, 4])
+                n = rng.choice([4, 6, 9])
+                cases.append({'f': f, 'n': n, 'nv': 2, 'cols': fml.gen_trace(rng, 2, n), 'P': P})
         # wide windows over ramp-shaped signals (runs of rising / falling values): the sliding-window algorithms have to
         # discard several dominated entries at once
         for i in range(nrand // 3):
